@@ -145,6 +145,9 @@ def build(cl, pl):
         return c01.build_instance(pl)
     if cl == 1:
         return c08.build(pl)
+    import inspect
+    if len(inspect.signature(c09.build_instance).parameters) >= 2:
+        return c09.build_instance(pl, {"paths": []})      # plain (non-history) payloads never touch the hist argument
     return c09.build_instance(pl)
 
 
@@ -211,6 +214,23 @@ def header_part(cn):
     return cn
 
 
+def content_view(cn):
+    """canon() -> the content the property speaks of, independent of the order of the ballot list (the writer sorts it)
+    and, for matching instances, of isolated nodes / num_voters (C09: not preserved by design)"""
+    cn = list(cn)
+    if cn[0] == 0:
+        cn[6] = sorted(cn[6])
+    elif cn[0] == 1:
+        cn[8] = sorted(cn[8])
+    else:
+        meta = list(cn[1])
+        meta[10] = meta[9]                                   # num_voters := num_alternatives
+        cn[1] = meta
+        cn[3] = sorted([n, s] for n, s in cn[3] if s)        # nodes with out-edges; weights carry the rest
+        cn[3] = [[n, s] for n, s in cn[3]]
+    return cn
+
+
 def n_ballots(d):
     tag, x = d
     return len(x[5]) if tag == 0 else len(x[7]) if tag == 1 else len(x[3])
@@ -264,13 +284,14 @@ def impl(c):
             os.makedirs(os.path.join(d, "canon"))
             p0 = os.path.join(d, "canon", "w." + ext)
             inst.write(p0)
+            orig = dump(inst)                      # the instance as it is after write() (file_name default filled in)
             canon_text = _read(p0)
             text = restyle(styles, canon_text)
             p1 = os.path.join(d, "r." + ext)
             _write_raw(p1, text)
             res = [_run_entry(cl, e, ext, p1, text, ac, ho)[0] for e in range(4)]
             full = _run_entry(cl, 0, ext, p1, text, ac, 0)[0] if ho else None
-            return {"ext": T(ext), "canon": T(canon_text), "text": T(text), "res": res,
+            return {"ext": T(ext), "canon": T(canon_text), "text": T(text), "res": res, "orig": orig,
                     "canon_res": _run_entry(cl, 0, ext, p0, canon_text, ac, ho)[0], "full": full}
         if op in ("c10.gate", "c10.raw"):
             cl, e, ext, content, ac, ho = pl
@@ -364,6 +385,13 @@ def judge(c, r, mres):
         if canon_res(r["canon_res"]) != base:
             return "the restyled content is read differently from the canonical content: %s vs %s" % (
                 _short(base), _short(canon_res(r["canon_res"])))
+        if not ac and not ho:
+            # against the CONTENT: the instance that was written (all entry points could be wrong in the same way)
+            want, got = content_view(canon(r["orig"])), content_view(base[1])
+            if want != got:
+                k = next((k for k, (x, y) in enumerate(zip(want, got)) if x != y), None)
+                return "the restyled file is not read back as the instance that was written (field %r): written %s, read %s" % (
+                    k, _short(want[k] if k is not None else want), _short(got[k] if k is not None else got))
         if r["res"][3][1][0] != cl:
             return "get_parsed_instance built class %r for a %s file" % (r["res"][3][1][0], U(r["ext"]))
         if ho:
@@ -419,7 +447,23 @@ def stats(c, r, m):
     if op == "c10.entry":
         cl, ipl, ac, ho, styles = pl
         terms = sorted({s[3] for s in styles})
-        lab = ["entry class=%s ac=%d ho=%d" % (CLASSES[cl][:3], ac, ho),
+        lab = []
+        if isinstance(r, dict) and "text" in r:
+            lines = U(r["text"]).replace("\r\n", "\n").replace("\r", "\n").split("\n")
+            hdr = [l for l in lines if l.strip().startswith("#")]
+            bal = [l.strip() for l in lines if l.strip() and not l.strip().startswith("#")]
+            if ho and any(l[:1] in (" ", "\t") for l in hdr):
+                lab.append("corner: header_only + indented header lines (space/tab) class=%s" % CLASSES[cl][:3])
+            if cl in (0, 1):
+                tied = any(len(c_) != 1 for o in (ipl[5] if cl == 0 else ipl[7]) for c_ in o)
+                pats = [("2+ blanks after comma", ",  "), ("blank before comma", " ,"), ("padded brace", "{ "),
+                        ("padded brace", " }"), ("blank before colon", " :"), ("2+ blanks after colon", ":  ")]
+                hit = sorted({nm for nm, pt in pats if any(pt in l for l in bal)})
+                for nm in hit:
+                    lab.append("corner: %s ballots%s: %s" % (CLASSES[cl][:3], " with ties" if tied else "", nm))
+                if cl == 0 and tied and U(r["ext"]) in ("toc", "toi") and len(hit) >= 3:
+                    lab.append("corner: toc/toi with ties and >= 3 kinds of odd spacing")
+        lab += ["entry class=%s ac=%d ho=%d" % (CLASSES[cl][:3], ac, ho),
                "entry eol=%s" % ("mixed" if len(terms) > 1 else ["LF", "CRLF", "CR"][terms[0]]),
                "entry padded=%d gaps=%d" % (int(any(s[0] or s[2] for s in styles)), int(any(any(s[1]) for s in styles)))]
         return lab
@@ -489,12 +533,15 @@ def small_instances(cl, n, rng):
     out = []
     if cl == 0:
         orders = c01.all_orders(3)
+        out.append(c01.simple_instance([([[1, 2], [3]], 2), ([[3], [1, 2]], 1), ([[1, 2, 3]], 1)], "toc"))
+        out.append(c01.simple_instance([([[1], [2, 3]], 2), ([[2, 3]], 2), ([[3, 1]], 1), ([[2], [1], [3]], 1)], "toi"))
         for k in range(n):
             o1, o2 = orders[(7 * k + 3) % len(orders)], orders[(11 * k + 5) % len(orders)]
             om = [(o1, 2)] + ([(o2, 1 + k % 2)] if o2 != o1 else [])
             out.append(c01.simple_instance(om, ORD_EXT[k % 4]))
     elif cl == 1:
         ps = list(c08.placements([1, 2, 3], 2)) + list(c08.placements([1, 2], 3))
+        out.append(c08.simple_instance([([[1, 2], [], [3]], 2), ([[], [1, 2, 3], []], 1), ([[3], [2], [1]], 1)], 3, [1, 2, 3]))
         for k in range(n):
             b1, b2 = ps[(5 * k + 1) % len(ps)], ps[(13 * k + 4) % len(ps)]
             bm = [(b1, 2)] + ([(b2, 1 + k % 2)] if b2 != b1 else [])
